@@ -3,6 +3,7 @@ package harness
 import (
 	"fmt"
 	"os"
+	"regexp"
 	"strings"
 	"testing"
 
@@ -157,7 +158,7 @@ func checkC08(c *C08Case, st *VStats) *VFailure {
 		for _, f := range listFormats {
 			if base[f] != perm[f] {
 				fl := vfail("ORDER DEPENDENCE (exposure=%v, format %s, variant %d: same resources, documents/rules permuted and re-partitioned into files): %s", c.Exposure, f, vi, firstDiff(base[f], perm[f]))
-				if c.Exposure && hasRespelledTwins(c.A) && sameUpToDesignationSpelling(f, base[f], perm[f]) {
+				if c.Exposure && hasRespelledTwins(c.A) && (sameUpToDesignationSpelling(f, base[f], perm[f]) || sameUpToTwinPeers(c.A, f, base[f], perm[f])) {
 					// recorded finding F-C08-1: shape (two rule peers equal up to re-spelling) and failure (only the
 					// spelling of potential-peer designations differs)
 					fl.Sig = "shared-representative-peer-spelling"
@@ -249,10 +250,6 @@ func canonSel(s *Selector) string {
 		parts = append(parts, k+"="+v)
 	}
 	for _, e := range s.Exprs {
-		if e.Op == "In" && len(e.Values) == 1 {
-			parts = append(parts, e.Key+"="+e.Values[0])
-			continue
-		}
 		vs := append([]string{}, e.Values...)
 		sortStrings(vs)
 		// duplicates in a values list do not change the requirement
@@ -261,6 +258,10 @@ func canonSel(s *Selector) string {
 			if i == 0 || v != vs[i-1] {
 				uv = append(uv, v)
 			}
+		}
+		if e.Op == "In" && len(uv) == 1 {
+			parts = append(parts, e.Key+"="+uv[0])
+			continue
 		}
 		parts = append(parts, e.Key+" "+e.Op+" "+strings.Join(uv, ","))
 	}
@@ -329,6 +330,125 @@ func sameUpToDesignationSpelling(format, a, b string) bool {
 		var xs []XTriple
 		for _, x := range p.Exposure {
 			if x.Peer != "entire-cluster" {
+				x.Peer = "potential"
+			}
+			xs = append(xs, x)
+		}
+		sortXTriples(xs)
+		return fmt.Sprint(p.Conns, xs, p.ExposureIPs, p.Unprotected)
+	}
+	return red(pa) == red(pb)
+}
+
+// ---- second face of F-C08-1: whether a shared representative peer is *removed* because an existing workload
+// satisfies its label equalities also depends on the first-come spelling (removal looks at matchLabels only) ----
+
+// splitTop splits s at commas that are not inside braces or brackets.
+func splitTop(s string) []string {
+	var parts []string
+	depth, start := 0, 0
+	for i, r := range s {
+		switch r {
+		case '{', '[':
+			depth++
+		case '}', ']':
+			depth--
+		case ',':
+			if depth == 0 {
+				parts = append(parts, s[start:i])
+				start = i + 1
+			}
+		}
+	}
+	if start < len(s) {
+		parts = append(parts, s[start:])
+	}
+	return parts
+}
+
+var desigReq = regexp.MustCompile(`^\{Key:(.*),Operator:(\w+),Values:\[(.*)\],\}$`)
+
+// parseDesignationPart parses one half of a normalised designation ("ns1", "all namespaces",
+// "namespace with {k=v,{Key:k,Operator:In,Values:[a b],}}", "all pods", "pod with {...}") back into a selector.
+func parseDesignationPart(part string, isNs bool) (*Selector, bool) {
+	sel := &Selector{MatchLabels: map[string]string{}}
+	switch {
+	case part == "all namespaces" || part == "all pods":
+		return sel, true
+	case strings.HasPrefix(part, "namespace with {") || strings.HasPrefix(part, "pod with {"):
+		body := part[strings.Index(part, "{")+1:]
+		if !strings.HasSuffix(body, "}") {
+			return nil, false
+		}
+		body = body[:len(body)-1]
+		for _, item := range splitTop(body) {
+			if item == "" {
+				continue
+			}
+			if m := desigReq.FindStringSubmatch(item); m != nil {
+				e := Expr{Key: m[1], Op: m[2]}
+				if m[3] != "" {
+					e.Values = strings.Split(m[3], " ")
+				}
+				sel.Exprs = append(sel.Exprs, e)
+				continue
+			}
+			k, v, ok := strings.Cut(item, "=")
+			if !ok {
+				return nil, false
+			}
+			sel.MatchLabels[k] = v
+		}
+		return sel, true
+	case isNs:
+		sel.MatchLabels[nsNameKey] = part
+		return sel, true
+	}
+	return nil, false
+}
+
+// twinExempt: the canonical selector pair of the entry is a pair of non-empty label equalities that an existing
+// workload (in a matching namespace) satisfies, and the world spells that pair in two ways.
+func twinExempt(w *World, x XTriple) bool {
+	parts := strings.SplitN(x.Peer, " || ", 2)
+	if len(parts) != 2 {
+		return false
+	}
+	ns, ok1 := parseDesignationPart(parts[0], true)
+	pod, ok2 := parseDesignationPart(parts[1], false)
+	if !ok1 || !ok2 {
+		return false
+	}
+	pe, ok3 := equalities(pod)
+	ne, ok4 := equalities(ns)
+	if !ok3 || !ok4 || len(pe) == 0 || len(ne) == 0 {
+		return false
+	}
+	for i := range w.Workloads {
+		r := &w.Workloads[i]
+		if superset(r.Labels, pe) && superset(w.nsLabels(r.Ns), ne) {
+			return true
+		}
+	}
+	return false
+}
+
+// sameUpToTwinPeers: both outputs parse and encode the same relation except for potential-peer entries whose selector
+// pair is a pair of label equalities satisfied by an existing workload (entries the tool may or may not omit, depending
+// on which spelling of the shared representative peer came first).
+func sameUpToTwinPeers(w *World, format, a, b string) bool {
+	pa, err1 := ParseList(format, a)
+	pb, err2 := ParseList(format, b)
+	if err1 != nil || err2 != nil {
+		return false
+	}
+	red := func(p *ParsedList) string {
+		var xs []XTriple
+		for _, x := range p.Exposure {
+			if x.Peer != "entire-cluster" {
+				if twinExempt(w, x) {
+					continue
+				}
 				x.Peer = "potential"
 			}
 			xs = append(xs, x)
